@@ -2163,7 +2163,10 @@ func (cs Conditions) inlineTagFilter(tags map[string]TagDetails) ConditionsSet {
 		}
 		origLen := len(csNew)
 		for range tagConditionsSet {
-			csNew = append(csNew, csNew[:origLen]...)
+			for _, c := range csNew[:origLen] {
+				// a real copy: the conjuncts get different conditions appended below
+				csNew = append(csNew, append(Conditions(nil), c...))
+			}
 		}
 		a := c.Accept & certain
 		for i := range csNew {
